@@ -330,6 +330,7 @@ class Frame:
         self.module = module
         self.st = st
         self.returns = []  # (AV, heap)
+        self.yields = []  # values produced by `yield` (generator functions)
         self.loops = []
         self.closure = closure  # enclosing Frame for nested functions
         self.self_av = None
@@ -457,6 +458,15 @@ class Interp:
         rets = list(frame.returns)
         if end is not None:
             rets.append((const(None), end.heap))
+        if fi.is_generator:
+            # a generator function: the call yields the joined element; the body is treated as run to completion
+            heap = None
+            for _, h in rets:
+                heap = h if heap is None else join_heap(heap, h)
+            if heap is not None:
+                st.heap = heap
+            el = join_all(frame.yields) if frame.yields else None
+            return AV(ty='generator', elem=el, maybe_empty=True, fresh=True, deps=el.deps if el is not None else None, genfn=fi.qualname)
         if not rets:
             return AV(ty='NoReturn')
         val = join_all(v for v, _ in rets)
@@ -1090,6 +1100,15 @@ class Interp:
         for k in n.keywords:
             v = self.eval(k.value, frame, st)
             if k.arg is None:
+                prev = kwargs.get('**')
+                if prev is not None:
+                    # f(**a, **b): one combined mapping
+                    kwm = dict(prev.kw or {})
+                    kwm.update(v.kw or {})
+                    unknown = (prev.ty == 'dict' and not prev.kw and prev.ty is not None and not prev.empty_init) or (v.ty == 'dict' and not v.kw and not v.empty_init) \
+                        or prev.ty != 'dict' or v.ty != 'dict'
+                    v = AV(ty='dict', kw=kwm, open_kw=True if (prev.open_kw or v.open_kw or unknown) else None,
+                           deps=(prev.deps or frozenset()) | (v.deps or frozenset()))
                 kwargs['**'] = v
             else:
                 kwargs[k.arg] = v
@@ -1331,12 +1350,15 @@ class Interp:
         return AV(ty='dict', elem=v, keyelem=k, fresh=True, overwrite=True, deps=(k.deps or frozenset()) | (v.deps or frozenset()))
 
     def e_Yield(self, n, frame, st):
-        if n.value is not None:
-            self.eval(n.value, frame, st)
+        v = self.eval(n.value, frame, st) if n.value is not None else const(None)
+        frame.yields.append(v)
+        self.emit('yield', n, value=v)
         return TOP
 
     def e_YieldFrom(self, n, frame, st):
-        self.eval(n.value, frame, st)
+        v = self.eval(n.value, frame, st)
+        item = self.model.iter_item(self, st, v, n.value, None)
+        frame.yields.append(item if item is not None else TOP)
         return TOP
 
     def e_Await(self, n, frame, st):
